@@ -104,6 +104,24 @@ def to_wrapper_cpp_type(fcp: FcpV2, input: Type) -> str:
     return str(ToCpp(fcp).visit(input))
 
 
+_CPP_KEYWORDS = frozenset(
+    """alignas alignof and and_eq asm auto bitand bitor bool break case catch char
+    char8_t char16_t char32_t class compl concept const consteval constexpr constinit
+    const_cast continue co_await co_return co_yield decltype default delete do double
+    dynamic_cast else enum explicit export extern false float for friend goto if inline
+    int long mutable namespace new noexcept not not_eq nullptr operator or or_eq private
+    protected public register reinterpret_cast requires return short signed sizeof static
+    static_assert static_cast struct switch template this thread_local throw true try
+    typedef typeid typename union unsigned using virtual void volatile wchar_t while xor
+    xor_eq""".split()
+)
+
+
+def to_cpp_namespace(protocol: str) -> str:
+    """Get the C++ namespace for a protocol, `default` and friends are keywords."""
+    return protocol + "_" if protocol in _CPP_KEYWORDS else protocol
+
+
 def get_matching_impls(fcp: FcpV2, protocol: str) -> List[Impl]:
     """Get impls matching a protocol."""
     return fcp.get_matching_impls_or_default(protocol)
@@ -205,7 +223,11 @@ class Generator(CodeGenerator):
             output_builder.with_file(
                 "fcp_" + protocol + ".h",
                 "fcp.h.j2",
-                {"fcp": fcp, "namespace": protocol, "protocol": protocol},
+                {
+                    "fcp": fcp,
+                    "namespace": to_cpp_namespace(protocol),
+                    "protocol": protocol,
+                },
             )
 
         for service in fcp.services:
